@@ -8,8 +8,8 @@ CLAIMED = {
          'HttpParser.build (dict comprehension) used through an assumed field-emission contract and covered by the bounded sweep; known finding F18 (no Via on follow-ups) carved out'),
  'C03': ('4.C03', 'framing contracts proved for all inputs: find_http_line, ChunkParser.process / parse (per state, well-formedness, termination), _process_body, _process_headers / _process_line (only whole lines consumed, termination) and the HttpParser.parse driver (the unconsumed tail is exactly what self.buffer keeps); segmentation independence of whole messages: exhaustive native cut-set sweep + CPython cross-check of the contracts on reached parser states (bounded stand-ins)',
          'A-STR (int parsing uninterpreted); the relational statement feed(pieces)==feed(whole) is bounded (message family x all 2-/3-piece cuts + bytewise), not proved'),
- 'C04': ('4.C04', 'reduced claim: follow-up branch of HttpProxyPlugin.on_client_data — an incomplete follow-up request is kept across segments, a complete one is forwarded exactly once, scrubbed, and the parser reset',
-         'right-origin / right-route selection for follow-ups is NOT claimed (open known findings F11, F12); adversarial follow-up parser; pass-through-or-drop plugins'),
+ 'C04': ('4.C04', 'reduced claim: follow-up branch of HttpProxyPlugin.on_client_data — an incomplete follow-up request is kept across segments, a complete one is forwarded exactly once, scrubbed, and the parser reset; an unparsable / unknown-protocol follow-up gets exactly the canned 400 and only listed exception classes leave; web server follow-ups (HttpWebServerPlugin.on_client_data): handed to the route exactly once before any teardown',
+         'right-origin / right-route selection for follow-ups is NOT claimed (open known findings F11, F12); adversarial follow-up parser state'),
  'C05': ('4.C05', 'no-escape and isolation-frame contracts on Threadless._cleanup / _cleanup_inactive / _update_selector (per-work event refresh) and ThreadlessFdExecutor.work against adversarial works and a raising selector',
          'E-SEL (selector.unregister raises at most KeyError), asyncio task plumbing (_run_once) not covered, loops of _cleanup_inactive / _update_selector unrolled (bounded: <=2 works)'),
  'C06': ('4.C06', 'build_http_pkt == RFC 7230 serialisation spec function (loop invariant), exact bytes and Content-Length framing rule of build_http_request / build_http_response (one length field whatever its spelling, none for chunked), _parse_first_request: parse failure => exactly the canned 400 + exception, rejection => 400 + teardown; every self-made response parsed by http.client in a native closed-term / grid check (bounded)',
@@ -18,16 +18,16 @@ CLAIMED = {
          'peer keeps reading; handle_data used via adversarial contract; known finding F20 (threaded final flush + SSLWant*) carved out under C10'),
  'C08': ('4.C08', 'auth predicate == credential spec (accept iff header present, two tokens, basic, exact code) as normal/exceptional postconditions; rejection reaches nothing (ghost connect counter); Proxy-Authorization never in the forwarded request',
          'A-STR (lower / whitespace split uninterpreted), adversarial plugin hooks, HttpParser.build used through its field-emission contract (instances for the hop-by-hop names), connect_upstream via contract'),
- 'C09': ('4.C09', 'hook chains of on_request_complete: before_upstream_connection / handle_client_request run in configured (dict) order, each plugin at most once, None ends the chain and suppresses connect / forwarding, a rejection ends it before any handle_client_request — ghost call logs with loop invariants; lifecycle: close hook exactly once on all exits of shutdown()',
-         'plugin load order (Plugins.load / FlagParser) not under contract; request-object identity along the chain not tracked; on_access_log chain not covered'),
- 'C10': ('4.C10', 'C05 bookkeeping + shutdown(): client socket closed exactly once and plugin close hook exactly once on all exits; received descriptor closed exactly once',
-         'socket.close releases the descriptor (kernel tables not modelled); TLS unwrap branch not modelled; _flush termination not proved; F20 carved out'),
- 'C11': ('4.C11', 'reduced claim: the verification parameters handed to ssl for the upstream handshake (verify_mode, check_hostname, cafile, server_hostname) and the SAN kind handed to openssl, as postconditions with a ghost handshake record',
+ 'C09': ('4.C09', 'hook chains of on_request_complete: before_upstream_connection / handle_client_request run in configured (dict) order, each plugin at most once, None ends the chain and suppresses connect / forwarding, a rejection ends it before any handle_client_request, every hook receives the request object the previous one returned (ghost cur_req; first request and follow-ups) — ghost call logs with loop invariants; lifecycle: close hook exactly once on all exits of shutdown()',
+         'plugin load order (Plugins.load / FlagParser) not under contract; on_access_log chain not covered'),
+ 'C10': ('4.C10', 'C05 bookkeeping + shutdown(): client socket closed exactly once and plugin close hook exactly once on all exits; received descriptor closed exactly once; upstream socket closed exactly once by the proxy plugin\'s and the reverse proxy\'s close hooks',
+         'socket.close releases the descriptor (kernel tables not modelled); TLS unwrap branch not modelled; _flush termination not proved; user close hooks assumed not to raise (F16); F20 carved out'),
+ 'C11': ('4.C11', 'reduced claim: the verification parameters handed to ssl for the upstream handshake (verify_mode, check_hostname, cafile and no further trust anchors, server_hostname) and the SAN kind handed to openssl, as postconditions with a ghost handshake record',
          'E-SSL: wrap_socket/openssl enforce what they are given; handshake, chain building, expiry, issued leaf content and the certificate cache are not covered'),
  'C12': ('4.C12', 'ReverseProxy.handle_request: connect only for a route chosen in this call, target host/port (default by scheme), TLS iff https, path replacement, Host rewrite iff option — postconditions over ghost connect/handshake/rebuild records with loop invariants',
          'regex matching uninterpreted; dynamic routes modelled as returning a Url; Url.from_bytes / HttpParser.build / connect via contracts; one request per connection (F11 open)'),
- 'C13': ('4.C13', 'confinement postcondition on the path handed to serve_static_file (ghost log of opened paths) against an independently written inside() predicate',
-         'E-PATH (normpath resolves dot segments, no symlinks), serve_static_file via contract'),
+ 'C13': ('4.C13', 'confinement postcondition on the path handed to serve_static_file (ghost log of opened paths) against an independently written inside() predicate; serve_static_file opens exactly the path it was given; native sweep on a real directory tree (bounded)',
+         'E-PATH (normpath resolves dot segments, no symlinks), E-FS (open opens the named file)'),
  'C14': ('4.C14', 'default ports (80 / 443 for CONNECT), host / host:port authority splitting, connect dispatch (literal vs name, IPv6 brackets removed) as postconditions; full request-target grammar incl. userinfo and IPv6 forms: native sweep vs urllib.parse (bounded)',
          'A-STR; IPv6 / userinfo branches of Url._parse are bounded (sweep), known finding F17 (damaged authorities accepted) carved out'),
  'C15': ('4.C15', 'parser framing contracts and builder specs shared with C03/C06 (re-proved), empty chunked body re-encoding; CPython cross-check of those contracts; whole-message round trips parse(build), build(parse), decode(encode) for all chunk sizes vs a reference decoder, update_body: native sweep (bounded)',
@@ -61,7 +61,9 @@ for p in props:
             'engine': 'pyvc',
             'level_claimed': {'category': 'proof', 'text': text + ' — discharged for all inputs by z3/cvc5 from VCs generated out of the real source on every run', 'design_ref': 'DESIGN.md ' + ref},
             'level_note': note,
-            'technique': 'contract-based deductive verification: sidecar pre/postconditions, loop invariants and ghost state on the real functions; VCs from the Python AST; z3 + cvc5',
+            'technique': 'contract-based deductive verification: sidecar pre/postconditions, loop invariants and ghost state on the real functions; VCs from the Python AST; z3 + cvc5'
+                         + ('; plus bounded native sweeps / CPython cross-check of the contracts as counterexample finders (labelled bounded, never counted as proved)'
+                            if any(w in open('/verif/contracts/%s.py' % pid).read() for w in ('def bounded_checks', 'CROSSCHECK = ')) else ''),
         })
     else:
         na.append({'property_id': pid, 'reason': NA.get(pid, TODO_REASON)})
